@@ -56,6 +56,18 @@ def run(fn, start, env, stop=(), fixed=(), on_stmt=None, limit=2000):
             if l in fixed:
                 continue
             v = None
+            # which variant an enum value is: known when it was built here (`Some(len)` answered by an inlined helper, then matched on)
+            env.pop(("d", l), None)
+            if rv["k"] == "agg" and rv.get("vi") is not None:
+                env[("d", l)] = int(rv["vi"])
+            elif rv["k"] == "use":
+                pl_ = op_place(rv["op"])
+                if pl_ is not None and not pl_["p"] and ("d", pl_["l"]) in env:
+                    env[("d", l)] = env[("d", pl_["l"])]
+            elif rv["k"] == "discr":
+                pl_ = rv.get("place") or {}
+                if not [e for e in pl_.get("p", []) if e != "*"] and ("d", pl_.get("l")) in env:
+                    v = env[("d", pl_["l"])]
             if rv["k"] in ("use", "cast"):
                 v = val(rv["op"])
                 if v is not None and rv["k"] == "cast" and rv.get("ty") == "u8":
@@ -91,6 +103,7 @@ def run(fn, start, env, stop=(), fixed=(), on_stmt=None, limit=2000):
         elif t["k"] == "call":
             if not t["dest"]["p"] and t["dest"]["l"] not in fixed:
                 env.pop(t["dest"]["l"], None)
+                env.pop(("d", t["dest"]["l"]), None)
             nxt = t.get("target")
             if nxt is None:
                 return "return", bb, env
